@@ -702,9 +702,17 @@ def random(expression: exp.Expression) -> exp.Expression:
     Snowflake random() is an signed 64 bit integer.
     Duckdb random() is a double between 0 and 1 and uses setseed() to set the seed.
     """
-    if isinstance(expression, exp.Select) and (rand := expression.find(exp.Rand)):
+    if isinstance(expression, exp.Rand):
+        # convert seed to double between 0 and 1 by dividing by max INTEGER (int32)
+        # (not max BIGINT (int64) because we don't have enough floating point precision to distinguish seeds)
+        # then attach to the statement as the seed arg
+        # (we can't attach it to exp.Rand because it will be rendered in the sql)
+        if expression.this and isinstance(expression.this, exp.Literal):
+            expression.root().args["seed"] = f"{expression.this}/2147483647-0.5"
+
         # shift result to between min and max signed 64bit integer
-        new_rand = exp.Cast(
+        # (each RANDOM call is replaced where it stands, so several calls and calls inside CTEs or subqueries work)
+        return exp.Cast(
             this=exp.Paren(
                 this=exp.Mul(
                     this=exp.Paren(this=exp.Sub(this=exp.Rand(), expression=exp.Literal(this="0.5", is_string=False))),
@@ -713,15 +721,6 @@ def random(expression: exp.Expression) -> exp.Expression:
             ),
             to=exp.DataType(this=exp.DataType.Type.BIGINT, nested=False, prefix=False),
         )
-
-        rand.replace(new_rand)
-
-        # convert seed to double between 0 and 1 by dividing by max INTEGER (int32)
-        # (not max BIGINT (int64) because we don't have enough floating point precision to distinguish seeds)
-        # then attach to SELECT as the seed arg
-        # (we can't attach it to exp.Rand because it will be rendered in the sql)
-        if rand.this and isinstance(rand.this, exp.Literal):
-            expression.args["seed"] = f"{rand.this}/2147483647-0.5"
 
     return expression
 
